@@ -1,8 +1,10 @@
 package jsonrpc2
 
 import (
+	"bytes"
 	"encoding/json"
 	"io"
+	"io/ioutil"
 
 	"github.com/vipnode/vipnode/v2/internal/pretty"
 )
@@ -33,6 +35,10 @@ func IOCodec(rwc io.ReadWriteCloser) *jsonCodec {
 type jsonCodec struct {
 	rwc        io.ReadWriteCloser
 	remoteAddr string
+
+	// readAhead holds what the previous message's decoder had already read
+	// from rwc beyond the end of that message.
+	readAhead bytes.Buffer
 }
 
 func (codec *jsonCodec) RemoteAddr() string {
@@ -41,7 +47,15 @@ func (codec *jsonCodec) RemoteAddr() string {
 
 func (codec *jsonCodec) ReadMessage() (*Message, error) {
 	var msg Message
-	err := json.NewDecoder(codec.rwc).Decode(&msg)
+	// A json.Decoder reads ahead of the value it decodes: when several
+	// messages arrive in one read, the rest must be kept for the next call.
+	dec := json.NewDecoder(io.MultiReader(&codec.readAhead, codec.rwc))
+	err := dec.Decode(&msg)
+	// What is left is the unused part of the decoder's buffer, followed by
+	// whatever it did not get to read from the previous remainder.
+	rest, _ := ioutil.ReadAll(io.MultiReader(dec.Buffered(), &codec.readAhead))
+	codec.readAhead.Reset()
+	codec.readAhead.Write(rest)
 	return &msg, err
 }
 
